@@ -344,7 +344,11 @@ TreesOver(S, maxArity, unary, pat) ==
                       IN {Node(LenOf(S, pat), -1, kids) : kids \in SeqProduct(subs)}
                       : P \in PartitionsK(S, k)}
                : k \in 2..maxArity}
-  IN plain \cup (IF unary /\ Cardinality(S) <= 2 THEN {Node(R(1), -1, <<t>>) : t \in plain} ELSE {})
+  IN plain \cup (IF unary /\ Cardinality(S) <= 2
+                   THEN {Node(R(1), -1, <<t>>) : t \in plain}
+                        \* and a chain of two single-child nodes (lengths 1 and 2)
+                        \cup {Node(R(1), -1, <<Node(R(2), -1, <<t>>)>>) : t \in plain}
+                   ELSE {})
 
 \* all rooted binary trees over S with every branch length taken from L (integers)
 RECURSIVE BinTreesL(_, _)
